@@ -322,9 +322,9 @@ class Differ:
             except Exception:
                 ta = tb = fa = fb = None
             if ta != tb:
-                self.report(f"{cls}.can_be_true", path + ".can_be_true", ta, tb, "effective truthiness")
+                self.report("Type.can_be_true", path + ".can_be_true", ta, tb, "effective truthiness")
             if fa != fb:
-                self.report(f"{cls}.can_be_false", path + ".can_be_false", fa, fb, "effective truthiness")
+                self.report("Type.can_be_false", path + ".can_be_false", fa, fb, "effective truthiness")
         elif isinstance(a, N.Node) and not self.is_symnode(a) and not isinstance(a, N.ClassDef):
             return  # AST (statement / expression): same class on both sides is all that is compared
         plan = self.plan_for(k)
